@@ -1439,6 +1439,12 @@ class Wtp:
                 if fn_name == "#invoke":
                     if not expand_invoke:
                         self.expand_stack.pop()  # fn_name
+                        # Like a disabled parser function, the call is
+                        # re-emitted with its arguments processed (selected
+                        # templates in them are expanded)
+                        args = tuple(
+                            expand_recurse(x, parent, expand_all) for x in args
+                        )
                         return "{{#invoke:" + "|".join(args) + "}}"
                     ret = invoke_fn(args, expander, parent)
                     # print(f"invoke: {ret=!r}")
